@@ -79,14 +79,14 @@ def handle (req : SExp) : Option SExp :=
         | .error e => some (sErr e)
   | .list [.atom "facts", f] =>
     -- which theorem hypotheses hold for this input, and the decidable conclusions on its output:
-    -- (ok <orderOk> <inlineCleanB> <safe> <spacing normal form> <tokens preserved>)
+    -- (ok <orderOk> <beforeFlatB> <safe> <spacing normal form> <tokens preserved>)
     match decFile f with
     | none => some (.list [.atom "bad-arg"])
     | some f =>
       if !f.wf then some (.list [.atom "uncovered", .atom "wf"])
       else if !f.noLeadingWs then some (.list [.atom "uncovered", .atom "leading-ws"])
       else match f.parse with
-        | .ok s => some (.list [.atom "ok", sBool f.orderOk, sBool s.inlineCleanB,
+        | .ok s => some (.list [.atom "ok", sBool f.orderOk, sBool s.beforeFlatB,
             sBool (safeGo false s.rebuildP), sBool (summ s.rebuildP).fileOk,
             sBool (decide (toks s.rebuildP = f.codeTokens))])
         | .error e => some (sErr e)
